@@ -161,6 +161,7 @@ package transaction
 
 //@ func (*ExecutorV3).RunTx
 //@   serves C04 C03 C26 C27 C05
+//@   assumespre (*Multisig).GetWeight: state invariant: a stored multisig wallet has as many weights as owners (established by CreateMultisigData.basicCheck, proved, and EditMultisig)
 //@   let tx = decodedTx(e.Executor, rawTx)
 //@   let snd = senderOf(tx)
 //@   let deliver = typeis(context, "*state.State")
